@@ -75,6 +75,41 @@ def wrap2F (angle wrap : Rat) : Rat :=
 def deltaF (desired actual wrap : Rat) : Rat := wrap2F (rn (desired - actual)) wrap
 
 
+/-! ### arguments of other numeric types (int, bool, Fraction mixed with float)
+
+The functions accept any Python number.  `int`, `bool` and `fractions.Fraction` arithmetic is exact;
+as soon as one operand of `%`, `-` or `*` is a `float` the other one is converted with `float()`
+(correctly rounded: `rn`) and the operation is the binary64 one.  Comparisons between a float and
+an int / Fraction are exact.  Below `fa`, `fw`, `fd` say whether the argument is a `float`
+(its value is then a binary64 value already); every argument is given by its exact value.
+With `wrap == 0` nothing is computed at all: the angle object itself is returned. -/
+
+/-- `wrap1` with typed arguments: exact unless a float is involved -/
+def wrap1T (fa fw : Bool) (angle wrap : Rat) : Rat :=
+  if wrap ≠ 0 then
+    if fa || fw then pymodF (rn angle) (rn wrap) else pymod angle wrap
+  else angle
+
+/-- `wrap2` with arguments of any numeric type: `wrap * 2.0` makes everything after the
+`wrap != 0` test binary64 -/
+def wrap2T (angle wrap : Rat) : Rat :=
+  if wrap ≠ 0 then
+    let rw := rn wrap                                   -- float(wrap)
+    let angle := pymodF (rn angle) (rn (rw * 2))        -- angle %= wrap * 2.0
+    if pabs angle > pabs wrap then                      -- exact comparison float vs int / Fraction
+      pymodF (rn (angle - rw)) (-rw)                    -- (angle - wrap) % (-wrap)
+    else angle
+  else angle
+
+/-- `delta` with typed arguments: `desired - actual` is exact unless a float is involved -/
+def deltaT (fd fa : Bool) (desired actual wrap : Rat) : Rat :=
+  wrap2T (if fd || fa then rn (rn desired - rn actual) else desired - actual) wrap
+
+/-- the typed analogue of `floatDiffers` (equal to it when all three arguments are floats) -/
+def typedDiffers (fd fa fw : Bool) (desired actual wrap : Rat) : Bool :=
+  wrap1T fa fw actual wrap != wrap1 actual wrap || wrap2T actual wrap != wrap2 actual wrap ||
+    deltaT fd fa desired actual wrap != delta desired actual wrap
+
 /-- Region of the known finding about IEEE rounding: on these (binary64) arguments some function's
 binary64 result differs from its exact result. -/
 def floatDiffers (desired actual wrap : Rat) : Bool :=
